@@ -33,9 +33,13 @@ Cases ==
       [] Family = "segments" -> UNION {{[k |-> "segments", nt |-> nt, info |-> info, L |-> L] : L \in [1..nt -> Labels(info)]} : nt \in 0..MaxT, info \in SegInfos}
       [] Family = "setget" -> {[k |-> "setget", h |-> h] : h \in UNION {[1..n -> SetOps] : n \in 1..MaxT}}
       [] Family = "convert" -> {x \in {[k |-> "convert", toSSE |-> d, headParts |-> hp, removeParallax |-> rp, calcBounds |-> cb, fixBSX |-> fb, fixShader |-> fs,
-                                        skinned |-> sk, colors |-> co, strips |-> st, parts |-> pa, dupNames |-> dn, manyBones |-> mb] :
-                                            d, hp, rp, cb, fb, fs, sk, co, st, pa, dn, mb \in BOOLEAN} :
-                                    x.manyBones => (x.skinned /\ ~x.headParts /\ ~x.dupNames /\ ~x.strips)}
+                                        skinned |-> sk, colors |-> co, strips |-> st, parts |-> pa, dupNames |-> dn, manyBones |-> mb, odd |-> od] :
+                                            d, hp, rp, cb, fb, fs, sk, co, st, pa, dn, mb \in BOOLEAN, od \in {"", "rootLater", "uncovered"}} :
+                                    \* odd: the file stores a data block in front of its root / a skinned shape has triangles its partitions do
+                                    \* not list (geometry edited without a partition rebuild)
+                                    /\ (x.manyBones => (x.skinned /\ ~x.headParts /\ ~x.dupNames /\ ~x.strips))
+                                    /\ (x.odd # "" => (x.toSSE /\ ~x.headParts /\ ~x.dupNames /\ ~x.strips /\ ~x.manyBones /\ ~x.removeParallax /\ ~x.fixBSX))
+                                    /\ (x.odd = "uncovered" => x.skinned)}
       [] Family = "partassign" -> UNION {{[k |-> "partassign", nt |-> nt, np |-> np, L |-> L] : L \in [1..nt -> -1..np]} : nt \in 1..(MaxT - 1), np \in 1..3}
 Expected(x) ==
     CASE x.k = "delverts" -> [labels |-> Erase(Iota(x.nv), x.I), tris |-> MapTris(x.tris, CollapseMap(x.I, x.nv))]
@@ -45,7 +49,7 @@ Expected(x) ==
       [] x.k = "convert" -> [n |-> 0]
 Hash(x) == (x.nv * 7 + Len(x.tris) * 13 + Len(x.I) * 3 + (IF Len(x.I) > 0 THEN x.I[1] ELSE 0) + FoldLeft(LAMBDA a, t : a + t[1] + 2 * t[2] + 3 * t[3], 0, x.tris))
 BoolN(b) == IF b THEN 1 ELSE 0
-ConvHash(x) == 3 * BoolN(x.manyBones) + BoolN(x.headParts) + 2 * BoolN(x.removeParallax) + 4 * BoolN(x.calcBounds) + 8 * BoolN(x.fixBSX) + 16 * BoolN(x.fixShader) + 32 * BoolN(x.dupNames) + 64 * BoolN(x.strips)
+ConvHash(x) == (IF x.odd = "" THEN 0 ELSE IF x.odd = "rootLater" THEN 1 ELSE 2) + 3 * BoolN(x.manyBones) + BoolN(x.headParts) + 2 * BoolN(x.removeParallax) + 4 * BoolN(x.calcBounds) + 8 * BoolN(x.fixBSX) + 16 * BoolN(x.fixShader) + 32 * BoolN(x.dupNames) + 64 * BoolN(x.strips)
 Picked(x) == Sample = 1 \/ (IF x.k = "delverts" THEN Hash(x) % Sample = Phase % Sample ELSE IF x.k = "convert" THEN ConvHash(x) % Sample = Phase % Sample ELSE TRUE)
 Init == c \in Cases
 Next == UNCHANGED c
